@@ -32,10 +32,6 @@ Definition peq_struct_body (l : list (nat * field * fattr)) : block :=
               else let n := field_member f i in
                    [peq_check fa (ERef (EField (EVar "self") n)) (ERef (EField (EVar "other") n))]) l.
 
-Fixpoint index_from {A} (i : nat) (l : list A) : list (nat * A) :=
-  match l with [] => [] | x :: r => (i, x) :: index_from (S i) r end.
-Definition indexed {A} (l : list A) := index_from 0 l.
-
 Definition else_false : option block := Some [ESemi (EReturn (EBool false))].
 
 Definition peq_arm_named (v : string) (l : list (field * fattr)) : pat * expr :=
@@ -91,8 +87,6 @@ Definition peq_variant F traits (v : variant) : outcome ((pat * expr) * list tok
   | FUnnamed fs => let* l := field_attrs F traits fs in
                    Ok (peq_arm_unnamed (v_name v) (indexed l), peq_types l)
   end.
-
-Definition usize_cast (e : expr) : expr := e.
 
 Definition peq_union_body : block :=
   let raw (x : string) :=
